@@ -188,7 +188,7 @@ func SignHashed(rand io.Reader, priv, e []byte) (r, s []byte, err error) {
 			return
 		}
 
-		if utils.ConstantTimeCmp(K[:], nBytes[:], 32) >= 0 {
+		if utils.ConstantTimeCmp(K[:], nBytes[:], 32) >= 0 || utils.ConstantTimeCmp(K[:], zero32[:], 32) == 0 {
 			continue
 		}
 
